@@ -127,13 +127,18 @@ func TestVerifC05B(t *testing.T) {
 			}
 			tag := fmt.Sprintf("contact=%v devices=%v plan=%d", c.contact, c.devices, pi)
 			var trace []string
-			activate := func(d *c05Dev) bool {
+			// every device opens the group's stores first (entries can reach a device before it activates the group: it
+			// replicates the logs as soon as they are open); activation comes later, in the seeded order
+			for _, d := range devs {
 				gc, err := d.r.open(g)
 				if err != nil {
 					rep.Inconclusivef("%s: open: %v", tag, err)
-					return false
+					return
 				}
 				d.gc = gc
+			}
+			activate := func(d *c05Dev) bool {
+				gc := d.gc
 				if err := gc.ActivateGroupContext(d.contact); err != nil {
 					rep.Violate("C05/activation-failed", err.Error(), tag)
 					return false
@@ -156,17 +161,27 @@ func TestVerifC05B(t *testing.T) {
 						act = append(act, d)
 					}
 				}
-				for k := 0; k < rng.Intn(4) && len(act) > 1; k++ {
-					src, dst := act[rng.Intn(len(act))], act[rng.Intn(len(act))]
+				for k := 0; k < rng.Intn(4) && len(devs) > 1; k++ {
+					// the source has activated (it has written something), the destination may not have yet
+					src, dst := act[rng.Intn(len(act))], devs[rng.Intn(len(devs))]
 					if src == dst {
 						continue
 					}
-					if err := vDeliver(ctx, dst.gc.MetadataStore(), vHeads(src.gc.MetadataStore())); err != nil {
+					// either everything the source has (its heads), or only an older part of its log (replication can stop
+					// anywhere: e.g. a device's announcements without the entry that announces the device itself)
+					what := vHeads(src.gc.MetadataStore())
+					label := "sync"
+					if all := src.gc.MetadataStore().OpLog().Values().Slice(); len(all) > 1 && rng.Intn(2) == 0 {
+						idx := rng.Intn(len(all) - 1)
+						what = all[idx : idx+1]
+						label = fmt.Sprintf("sync-up-to-entry-%d-of-%d", idx+1, len(all))
+					}
+					if err := vDeliver(ctx, dst.gc.MetadataStore(), what); err != nil {
 						rep.Inconclusivef("%s: deliver: %v", tag, err)
 						ok = false
 						break
 					}
-					trace = append(trace, fmt.Sprintf("sync(%s<-%s)", dst.name, src.name))
+					trace = append(trace, fmt.Sprintf("%s(%s<-%s)", label, dst.name, src.name))
 				}
 			}
 			if !ok {
